@@ -199,7 +199,7 @@ CHECKS["C14"]["text"] += " Listen-level scenarios include max_worker_threads = 0
 CHECKS["C15"]["text"] += " Scenarios include max_worker_threads = 0."
 CHECKS["C16"]["text"] += " Activation by a foreign activator (listening socket passed as descriptor 3, blocking or O_NONBLOCK, service without idle timeout) is a transport of its own."
 CHECKS["C18"]["text"] += " Resolver-mode sequences also run against targets that serve one connection at a time."
-CHECKS["C20"]["text"] += " A third of the cases run with --debug."
+CHECKS["C20"]["text"] += " Half of the cases run with --debug."
 for _k in CHECKS:
     CHECKS[_k]["text"] += " Tie also: the text of the hand-modelled functions is pinned (tr/shapes.py) and every props file proves its pin."
 
